@@ -249,3 +249,78 @@ def rnd_grid(s, c, P, p, n, rm):
     m = q + b2i(incr(rm, s, q, rho, P))
     carry = rho != 0 and p is not None and bl(m) > p
     return (ite(carry, n + 2, n + 1), ite(carry, fdiv(m, 2), m), rho != 0, carry)
+
+
+# ---------------------------------------------------------------------------
+# exact arithmetic on dyadic triples (s, exp, c), by alignment over integers
+
+def sv(x):
+    """signed significand"""
+    return ite(x._s, -x._c, x._c)
+
+
+def dy_add_eq(x, y, r):
+    """value(r) == value(x) + value(y), aligned at the smallest of the three exponents"""
+    e0 = ite(x._exp <= y._exp, x._exp, y._exp)
+    e1 = ite(e0 <= r._exp, e0, r._exp)
+    return sv(x) * pow2(x._exp - e1) + sv(y) * pow2(y._exp - e1) == sv(r) * pow2(r._exp - e1)
+
+
+def dy_sub_eq(x, y, r):
+    """value(r) == value(x) - value(y), aligned at the smallest of the three exponents"""
+    e0 = ite(x._exp <= y._exp, x._exp, y._exp)
+    e1 = ite(e0 <= r._exp, e0, r._exp)
+    return sv(x) * pow2(x._exp - e1) - sv(y) * pow2(y._exp - e1) == sv(r) * pow2(r._exp - e1)
+
+
+def dy_mul_eq(x, y, r):
+    """|value(r)| == |value(x)| * |value(y)|, aligned at the smaller of r.exp and x.exp + y.exp"""
+    ep = x._exp + y._exp
+    e1 = ite(ep <= r._exp, ep, r._exp)
+    return x._c * y._c * pow2(ep - e1) == r._c * pow2(r._exp - e1)
+
+
+def fl_val(x):
+    """exact rational value of a finite dyadic triple"""
+    pe = ite(x._exp >= 0, x._exp, 0)
+    ne = ite(x._exp < 0, -x._exp, 0)
+    return rdiv(sv(x) * pow2(pe), pow2(ne))
+
+
+def arg_nan(x):
+    return cls_name(x) == 'Float' and x._isnan
+
+
+def arg_inf(x):
+    return cls_name(x) == 'Float' and x._isinf and not x._isnan
+
+
+def arg_neg(x):
+    """sign bit of an engine argument (a Fraction has no negative zero)"""
+    return x._real._s if cls_name(x) == 'Float' else x < 0
+
+
+def arg_zero(x):
+    return (not x._isnan and not x._isinf and x._real._c == 0) if cls_name(x) == 'Float' else x == 0
+
+
+def arg_val(x):
+    """exact rational value of a finite engine argument"""
+    return fl_val(x._real) if cls_name(x) == 'Float' else x
+
+
+def is_float(x):
+    return cls_name(x) == 'Float'
+
+
+def res_nan(r):
+    return cls_name(r) == 'Float' and r._isnan and not r._isinf
+
+
+def res_inf(r, s):
+    return cls_name(r) == 'Float' and r._isinf and not r._isnan and r._real._s == s
+
+
+def res_zero(r, s):
+    """a zero of sign s (only a Float can carry a negative zero)"""
+    return (fl_finite(r) and r._real._c == 0 and r._real._s == s) if cls_name(r) == 'Float' else (r == 0 and not s)
